@@ -30,6 +30,22 @@ class _Lock:
         self.f.close()
 
 
+class GenLock:
+    """Serialises `regenerate DPL/Generated/*.lean from the sources` + `build them` across concurrent checks (two checks
+    looking at DIFFERENT copies of the repository - a seeded-change trial next to a run on /repo - would otherwise be
+    able to build each other's generated files).  A different lock file from _Lock, which build() takes itself."""
+
+    def __enter__(self):
+        os.makedirs(os.path.join(LEAN, ".lake"), exist_ok=True)
+        self.f = open(os.path.join(LEAN, ".lake", "verif-gen.lock"), "w")
+        fcntl.flock(self.f, fcntl.LOCK_EX)
+        return self
+
+    def __exit__(self, *a):
+        fcntl.flock(self.f, fcntl.LOCK_UN)
+        self.f.close()
+
+
 def _run(cmd, timeout, input_=None):
     env = dict(os.environ)
     env.setdefault("LEAN_NUM_THREADS", "8")
